@@ -36,6 +36,19 @@ Other(h) == {   \* node kinds outside the polynomial fragment (flatten / fold mu
 Top(h) == { N("Sum", << h, L >>), N("Product", << h, L >>), N("Product", << L, h >>),
             B("Power", h, KI(2)), B("Quotient", h, L), N("Sum", << h, h >>) }
 
+\* operands that only BECOME a sum (product) through their own folding - neutral factors around
+\* a sum, cancelling terms around a product - next to a constant of the enclosing sum (product):
+\* the folders must merge what the operand collapsed to
+Collapse(h) == {
+  N("Sum", << KI(2), L, N("Product", << KI(1), N("Sum", << h, KI(3) >>) >>) >>),
+  N("Sum", << KI(1), N("Product", << KI(-1), KI(-1), N("Sum", << h, KI(3) >>) >>) >>),
+  N("Sum", << N("Product", << KI(1), N("Sum", << h, KI(3) >>) >>), KI(2) >>),
+  N("Sum", << KI(2), B("Power", N("Sum", << h, KI(3) >>), KI(1)) >>),
+  N("Product", << KI(3), N("Sum", << KI(1), N("Product", << KI(2), h >>), KI(-1) >>) >>),
+  N("Product", << KI(2), L, N("Sum", << KI(0), N("Product", << h, KI(3) >>) >>) >>),
+  N("Product", << N("Sum", << KI(0), N("Product", << h, KI(3) >>) >>), KI(2) >>),
+  N("Product", << KI(3), B("Power", N("Product", << KI(2), h >>), KI(1)) >>) }
+
 PoolFor(ty) ==
     CASE ty = "any"   -> Leaves \cup (IF Tier = "quick" THEN D1Q ELSE D1)
       [] ty = "leaf"  -> IF Tier = "quick" THEN { x, KI(2) } ELSE { x, pp, KI(2), KI(-1) }
@@ -51,7 +64,7 @@ FirstHoleTy(e) ==
                       LET r == FirstHoleTy(ks[i]) IN IF r # "" THEN r ELSE Go(i + 1)
          IN Go(1)
 
-Roots == Mid(A) \cup Other(A) \cup Top(M) \cup Leaves \cup D1
+Roots == Mid(A) \cup Other(A) \cup Top(M) \cup Collapse(A) \cup Leaves \cup D1
 Init == tree \in Roots
 Next == /\ NHoles(tree) > 0
         /\ \E s \in PoolFor(FirstHoleTy(tree)) : tree' = FillFirst(tree, s)
